@@ -228,6 +228,23 @@ func verifyFunction(w *World, fn *ssa.Function, spec *FuncSpec) (vc *VC) {
 			for _, ik := range spec.Implements {
 				fr.checkImplements(ik, ex)
 			}
+			// frame: ghost state not listed under `modifies` is unchanged (callers rely on it)
+			declared := map[string]bool{}
+			for _, m := range spec.Modifies {
+				for _, c := range vc.modCompQuiet(m, spec) {
+					declared[c] = true
+				}
+			}
+			for _, g := range vc.db.Ghosts {
+				cur, changed := ex.st.m[g.Name]
+				if !changed || declared[g.Name] || cur == compInit(g.Name) {
+					continue
+				}
+				if e0, ok := fr.entry.m[g.Name]; ok && e0 == cur {
+					continue
+				}
+				vc.oblige("frame", fr.autoTags(), ex.reach, fmt.Sprintf("(= %s %s)", cur, vc.get(fr.entry, g.Name)), "ghost state "+g.Name+" is not listed under modifies and must be unchanged", ex.pos, nil)
+			}
 			for _, r := range ex.results {
 				if r.T != nil && vc.isPooledPtr(r.T) {
 					saved := fr.curReach
@@ -735,4 +752,15 @@ func (fr *Frame) checkImplements(ikey string, ex *Exit) {
 		vc.oblige("implements", tags, ex.reach, g, fmt.Sprintf("post-condition of %s: %s", ikey, en.Text), ex.pos, en)
 	}
 	vc.note("%s is checked against the post-conditions of %s; pre-conditions of the implementation beyond the interface contract are object invariants established by its constructor (not checked)", vc.name, ikey)
+}
+
+// modCompQuiet: the ghost components named by a modifies expression (no diagnostics).
+func (vc *VC) modCompQuiet(m Expr, spec *FuncSpec) []string {
+	switch m := m.(type) {
+	case *EIdent:
+		return []string{m.Name}
+	case *EIndex:
+		return vc.modCompQuiet(m.X, spec)
+	}
+	return nil
 }
